@@ -34,6 +34,10 @@ func init() {
 			"p6": {Tag: "kvhandle", Start: "file-b", Threads: [][]conc.Op{{{Name: "writefile", P: "b", Data: d1}}, {{Name: "writefile", P: "b", Data: d2}}}},
 			"p8": {Tag: "kvhandle", Start: "file-b", Threads: [][]conc.Op{{{Name: "append", P: "b", Data: d1}}, {{Name: "readfile", P: "b"}, {Name: "readfile", P: "b"}}}},
 			"p9": {Tag: "kvhandle", Start: "file-b", Threads: [][]conc.Op{{{Name: "writefile", P: "b", Data: d2}}, {{Name: "readfile", P: "b"}, {Name: "remove", P: "b"}}}},
+			"p10": {Tag: "kvhandle", Start: "file-b", Threads: [][]conc.Op{{{Name: "mkdir", P: "a"}}, {{Name: "mkdir", P: "a"}, {Name: "stat", P: "a"}}}},
+			"p11": {Tag: "kvhandle", Start: "file-b", Threads: [][]conc.Op{{{Name: "mkdir", P: "a"}}, {{Name: "rename", P: "b", Q: "a"}, {Name: "stat", P: "b"}}}},
+			"p12": {Tag: "kvhandle", Start: "file-b", Threads: [][]conc.Op{{{Name: "append", P: "b", Data: d1}}, {{Name: "remove", P: "b"}, {Name: "mkdir", P: "b"}}}},
+			"p13": {Tag: "kvhandle", Start: "file-b", Threads: [][]conc.Op{{{Name: "mkdir", P: "a"}, {Name: "rename", P: "a", Q: "b"}}, {{Name: "remove", P: "b"}}}},
 			"p7": {Tag: "kvhandle", Start: "file-b", Threads: [][]conc.Op{{{Name: "writefile", P: "b", Data: d1}}, {{Name: "rename", P: "b", Q: "a"}, {Name: "append", P: "a", Data: d2}}}},
 		}
 	}
@@ -139,12 +143,16 @@ func init() {
 							real := map[string]string{"a": "none", "b": "none"}
 							ft.Pairs(func(k, e *tla.Value) {
 								if k.K == tla.Seq && len(k.E) == 1 {
-									real[k.E[0].S] = fmt.Sprint(e.F("d").Bytes())
+									if e.F("k").S == "dir" {
+										real[k.E[0].S] = "dir"
+									} else {
+										real[k.E[0].S] = fmt.Sprint(e.F("d").Bytes())
+									}
 								}
 							})
 							for _, n := range []string{"a", "b"} {
 								m := v.F("final").F(n)
-								want := "none"
+								want := m.S // "none" / "dir"
 								if m.K != tla.Str {
 									want = fmt.Sprint(m.Bytes())
 								}
